@@ -516,6 +516,8 @@ func init() {
 		checkCoercionErrors(r, prog, a, "c02")
 		checkJSONNumber(r, prog, a, "c02")
 		checkElementTransparency(r, prog, a, "c02")
+		r.importing = "C09"
+		checkComparatorCalls(r, prog, a, a.EvalSet) // what a comparator compares with is the literal read for that very kind, without error
 		r.importing = "C19"
 		checkSelectorString(r, prog, "c19") // "the raw string": a bare literal's text is the dotted join of its parts
 		if g := loadGrammars(r, prog); g != nil {
